@@ -252,6 +252,18 @@ def item_codegen(repo):
     out += 'def serviceNameGen (pkg svc : Bytes) : Bytes :=\n  ' + fmt_pieces(f, ['pkg', f'(if pkg.isEmpty then [] else {lean_bytes(sep.encode())})', 'svc'], True) + '\n'
     if not re.search(r'generate_transport\(\s*&server_service\s*,\s*&server_trait\s*,\s*&path\s*\)', g):
         raise ValueError('SERVICE_NAME is not built from `path`')
+    # the generated client method: the route is set unconditionally, then one unary call
+    gu = flat(block_after(c, r'fn\s+generate_unary\s*\('))
+    if ('let codec = #codec_name::default(); let mut request = request.into_request(); *request.route_mut() = #path.into(); self.inner.unary(request, codec).await' not in gu
+            or 'fn generate_unary(method: &Method, path: String) -> TokenStream' not in flat(c)
+            or not re.search(r'generate_unary\(\s*method\s*,\s*path\s*\)', gm)):
+        raise ValueError('client.rs generate_unary: ' + gu[-220:])
+    # the generated server: per-method layers are STACKED by add_layer_for_<method>, applied around the method service
+    fs = flat(s)
+    for piece in ['pub fn #add_layer_function_names( mut self, layer: InboundRequestLayer<#method_request_types, #method_response_types>, ) -> Self { self.#method_layer_names = InboundRequestLayer::new( Stack::new(self.#method_layer_names, layer) ); self }',
+                  '.map(|method| quote::format_ident!("add_layer_for_{}", method.name()))']:
+        if piece not in fs:
+            raise ValueError('server.rs add_layer_for template: ' + piece[:60])
     # router prefix of add_rpc_service
     r = strip_comments(read(repo, 'crates/anemo/src/routing/mod.rs'))
     ar = block_after(r, r'pub\s+fn\s+add_rpc_service')
@@ -832,6 +844,22 @@ def item_tower(repo):
             'def towerShapeChecked : Bool := true\n')
 
 
+def item_peerid(repo):
+    """PeerId: equality, hashing and order are the derived (bytewise) ones -- the registry, the tie-break, the
+    allow-list and the per-peer tables of the tower layers all key on them"""
+    t = flat(strip_comments(read(repo, 'crates/anemo/src/types/peer_id.rs')))
+    m = re.search(r'#\[derive\(([^\)]*)\)\]\s*pub struct PeerId\(pub \[u8; PEER_ID_LENGTH\]\);', t)
+    if not m or not {'Hash', 'PartialEq', 'Eq', 'PartialOrd', 'Ord'} <= {x.strip() for x in m.group(1).split(',')}:
+        m2 = re.search(r'(#\[derive\([^\]]*\)\]\s*)?pub struct PeerId[^;{]*[;{]', t)
+        raise ValueError('peerid: ' + (m2.group(0) if m2 else 'struct PeerId not found')[:160])
+    if 'const PEER_ID_LENGTH: usize = 32;' not in t:
+        raise ValueError('peerid: PEER_ID_LENGTH')
+    for bad in ['impl PartialEq for PeerId', 'impl Hash for PeerId', 'impl std::hash::Hash for PeerId', 'impl Ord for PeerId', 'impl PartialOrd for PeerId', 'impl std::cmp::PartialEq for PeerId']:
+        if bad in t:
+            raise ValueError('peerid: hand-written ' + bad)
+    return 'def peerIdShapeChecked : Bool := true\n'
+
+
 def item_timeouts(repo):
     """request deadlines (C11): header parsing, the min rule of both layers, what happens at the deadline,
     and the wiring of the configured defaults into every network"""
@@ -888,6 +916,13 @@ def item_router(repo):
     mi = flat(block_after(r, r'fn insert\(\s*&mut self,\s*path: impl Into<String>,\s*val: RouteId,?\s*\)'))
     if mi != 'let path = path.into(); self.inner.insert(&path, val)?; let shared_path: Arc<str> = path.into(); self.route_id_to_path.insert(val, shared_path.clone()); self.path_to_route_id.insert(shared_path, val); Ok(())':
         raise ValueError('router: RouteMatcher::insert: ' + mi[:200])
+    rt = flat(strip_comments(read(repo, 'crates/anemo/src/routing/route.rs')))
+    for piece in ['pub(super) fn new<T>(svc: T) -> Self where T: Service<Request<Bytes>, Response = Response<Bytes>, Error = Infallible> + Clone + Send + \'static, T::Future: Send + \'static, { Self(BoxCloneService::new(svc)) }',
+                  'pub(crate) fn oneshot_inner( &self, req: Request<Bytes>, ) -> Oneshot<BoxCloneService<Request<Bytes>, Response<Bytes>, Infallible>, Request<Bytes>> { self.0.clone().oneshot(req) }',
+                  'fn poll_ready( &mut self, _cx: &mut std::task::Context<\'_>, ) -> std::task::Poll<Result<(), Self::Error>> { std::task::Poll::Ready(Ok(())) }',
+                  'fn call(&mut self, req: Request<Bytes>) -> Self::Future { self.oneshot_inner(req) }']:
+        if piece not in rt:
+            raise ValueError('router: routing/route.rs: ' + piece[:60])
     nf = flat(strip_comments(read(repo, 'crates/anemo/src/routing/not_found.rs')))
     if 'StatusCode::NotFound' not in nf:
         raise ValueError('router: NotFound fallback')
@@ -995,7 +1030,7 @@ item_endpoint = make_pin_item('endpoint', 'endpointShapeChecked', 'Endpoint::{co
 
 
 ITEMS = [('ANEMO', item_anemo), ('Version', item_version), ('StatusCode', item_status),
-         ('headers', item_headers), ('ConfigDefaults', item_config), ('tieBreak', item_tiebreak), ('codegen', item_codegen), ('admit', item_admit), ('life', item_life), ('registry', item_registry), ('tick', item_tick), ('rpcpath', item_rpcpath), ('tls', item_tls), ('wirefmt', item_wirefmt), ('tower', item_tower), ('timeouts', item_timeouts), ('router', item_router), ('rpc', item_rpc), ('dialing', item_dialing), ('netapi', item_netapi), ('tlsconfig', item_tlsconfig), ('endpoint', item_endpoint)]
+         ('headers', item_headers), ('ConfigDefaults', item_config), ('tieBreak', item_tiebreak), ('codegen', item_codegen), ('admit', item_admit), ('life', item_life), ('registry', item_registry), ('tick', item_tick), ('rpcpath', item_rpcpath), ('tls', item_tls), ('wirefmt', item_wirefmt), ('tower', item_tower), ('timeouts', item_timeouts), ('router', item_router), ('rpc', item_rpc), ('dialing', item_dialing), ('netapi', item_netapi), ('tlsconfig', item_tlsconfig), ('endpoint', item_endpoint), ('peerid', item_peerid)]
 
 HEADER = '''/- GENERATED by /verif/tools/gen.py from /repo's working tree on every run -- do not edit. -/
 import AnemoModel.Basic
